@@ -152,6 +152,63 @@ def d2_driver_to_raw(n, seed, policy, delivery, fails, d):
         w.close()
 
 
+def d2_policy_sequence(n, seed, seq, fails):
+    """one raw connection changes its mind: the LAST enableBLOB decides what it receives"""
+    from mc.core import e2e
+
+    w = e2e.World([spec()], guard_buffers=True)
+    try:
+        link = w.new_link("raw")
+        w.settle()
+        ep = link.server_ep
+        ep.feed(b'<getProperties version="1.7"/>')
+        for pol in seq:
+            ep.feed(("<enableBLOB device=\"DEV0\">%s</enableBLOB>" % pol).encode())
+            w.settle()
+        mark = len(ep.written())
+        b = blob_of(n, seed)
+        w.devices[0].g.bl.a.value = b
+        w.devices[0].g.t.a.value = "after-blob"
+        w.settle()
+        tail = ep.written()[mark:].decode("latin1")
+        els, rest = X.split_elements(tail)
+        blobs = [e for e in els if e.startswith("<setBLOBVector")]
+        texts = [e for e in els if e.startswith("<setTextVector")]
+        last = seq[-1]
+        dd = "policy-sequence=%s" % ">".join(seq)
+        if bool(blobs) != (last in ("Also", "Only")):
+            fails.append(("blob-policy", dd, "n=%d: after enableBLOB %s the connection received %d setBLOBVector" % (n, " then ".join(seq), len(blobs))))
+        if bool(texts) != (last in ("Never", "Also")):
+            fails.append(("text-policy", dd, "n=%d: after enableBLOB %s the connection received %d setTextVector" % (n, " then ".join(seq), len(texts))))
+    finally:
+        w.close()
+
+
+def d1_reuse(n, seed, fails):
+    """the driver keeps ONE BLOB object (a frame buffer), changes its contents and publishes it again"""
+    from indi.device.values import BLOB
+
+    from mc.core import e2e
+
+    w = e2e.World([spec()], guard_buffers=True)
+    try:
+        c = w.make_client()
+        dev = w.devices[0]
+        frame = BLOB(payload(n, seed), ".frame")
+        dev.g.bl.a.value = frame
+        w.settle()
+        for k, newlen in enumerate((n, n + 3, max(0, n - 2))):
+            frame.binary = payload(newlen, seed + k + 1)
+            dev.g.bl.a.value = frame
+            w.settle()
+            el = c["DEV0"]["BL"]["A"].value
+            if el is None or bytes(el.binary) != frame.binary or el.size != len(frame.binary):
+                fails.append(("payload-differs", "reused-blob-object", "n=%d: after refilling the same BLOB object with %d bytes the client has %r" % (n, newlen, None if el is None else len(el.binary))))
+                break
+    finally:
+        w.close()
+
+
 def d3_client_to_driver(n, seed, delivery, fails, d):
     from mc.core import e2e
 
@@ -316,6 +373,24 @@ def _run(shard, tier, seed, what, res, absorb):
                 d2_driver_to_raw(n, seed, p, "whole", f, "delivery=whole")
                 absorb(f, dict(kind="d2", n=n, seed=seed, policy=p))
                 res["executions"] += 1
+        if lo == 0:
+            import itertools as _it
+
+            for seq in _it.permutations(("Never", "Also", "Only"), 2):
+                f = []
+                d2_policy_sequence(200, seed, list(seq), f)
+                absorb(f, dict(kind="polseq", n=200, seed=seed, seq=list(seq)))
+                res["executions"] += 1
+            for seq in (("Also", "Never", "Only"), ("Only", "Also", "Never"), ("Also", "Also", "Never")):
+                f = []
+                d2_policy_sequence(1500, seed, list(seq), f)
+                absorb(f, dict(kind="polseq", n=1500, seed=seed, seq=list(seq)))
+                res["executions"] += 1
+            for n in (0, 1, 300, 1024, 2000):
+                f = []
+                d1_reuse(n, seed, f)
+                absorb(f, dict(kind="reuse", n=n, seed=seed))
+                res["executions"] += 1
         res["counters"]["lengths"] = hi - lo + 1
         if lo == 0:
             res["samples"].append({"length": 1025, "format": FORMATS[1025 % len(FORMATS)], "directions": ["driver->Client(BLOB connection)", "driver->raw(policy)", "client->driver"], "delivery": ["whole", "byte (every 16th length)"]})
@@ -378,6 +453,10 @@ def replay(rep):
         d2_driver_to_raw(rep["n"], rep["seed"], rep["policy"], "whole", f, "delivery=whole")
     elif k == "d3":
         d3_client_to_driver(rep["n"], rep["seed"], rep["mode"], f, "delivery=%s" % rep["mode"])
+    elif k == "polseq":
+        d2_policy_sequence(rep["n"], rep["seed"], rep["seq"], f)
+    elif k == "reuse":
+        d1_reuse(rep["n"], rep["seed"], f)
     elif k == "partial":
         partial_case(rep["n"], rep["seed"], rep["cf"], f)
     else:
